@@ -1,6 +1,6 @@
 import Proofs.RepEqCmp
 /-!
-# The standard filters and representation equivalence (helper lemmas for C18, `d = false`)
+# The standard filters and representation equivalence (helper lemmas for C18; `d`: with drops nested in containers)
 
 `values.Call` converts the receiver and the arguments to the parameter types of the filter.
 For the scalar parameter types (`bool`, `int`, `float64`, `string`, `time.Time`) the converted
@@ -42,6 +42,68 @@ theorem repEq_false_cases {u u' : GoVal} (h : RepEq false u u') : u' = u ∨ (ri
     | false => exact .inr ⟨rfl, rfl⟩
     | true => exact .inl (repEq_false_rigid hr' h.symm).symm
 
+/-- for every `d`: two related values that are no drops are the same value, or both are containers -/
+theorem repEq_noDrop_cases {d : Bool} {u u' : GoVal} (hu : noDrop u = true) (hu' : noDrop u' = true) (h : RepEq d u u') :
+    u' = u ∨ (rigidF u = false ∧ rigidF u' = false) := by
+  cases hr : rigidHead u with
+  | true => exact .inl (norm_inv_rigid hr hu' h)
+  | false =>
+    cases hr' : rigidHead u' with
+    | true => exact .inl (norm_inv_rigid hr' hu h.symm).symm
+    | false =>
+      refine .inr ⟨?_, ?_⟩
+      · cases u <;> simp_all [rigidHead, noDrop, rigidF]
+      · cases u' <;> simp_all [rigidHead, noDrop, rigidF]
+
+theorem URel.cases {d : Bool} {u u' : GoVal} (h : URel d u u') : u' = u ∨ (rigidF u = false ∧ rigidF u' = false) :=
+  repEq_noDrop_cases h.1.noDrop h.2.1.noDrop h.2.2
+
+/-- the elements of a converted `[]any` argument went through `ToLiquid`: none is a drop -/
+def NoDrops (ys : List GoVal) : Prop := ∀ y ∈ ys, noDrop y = true
+
+theorem NoDrops.nil : NoDrops [] := fun _ h => by cases h
+theorem NoDrops.head {y : GoVal} {ys : List GoVal} (h : NoDrops (y :: ys)) : noDrop y = true := h y (List.mem_cons_self ..)
+theorem NoDrops.tail {y : GoVal} {ys : List GoVal} (h : NoDrops (y :: ys)) : NoDrops ys := fun z hz => h z (List.mem_cons_of_mem _ hz)
+
+theorem toLiquid_noDrop (v : GoVal) : noDrop v.toLiquid = true := by
+  have := toLiquid_not_dropLike v
+  cases h : v.toLiquid <;> simp_all [isDropLike, noDrop]
+
+theorem convElems_noDrops (xs : List GoVal) : NoDrops (convElems xs) := by
+  intro y hy
+  simp only [convElems, List.mem_map] at hy
+  obtain ⟨x, _, rfl⟩ := hy
+  exact toLiquid_noDrop x
+
+/-- `ToLiquid` commutes with the normal form, up to the normal form -/
+theorem norm_toLiquid (d : Bool) : ∀ x : GoVal, x.toLiquid.norm d = (x.norm d).toLiquid.norm d
+  | .drop v => by
+    rw [toLiquid_drop, norm]
+    split
+    · rw [toLiquid_drop]
+    · exact norm_toLiquid d v
+  | .ptr w => by simp [norm]
+  | .slice t xs => by
+    have e : ((GoVal.slice t xs).norm d).toLiquid = (GoVal.slice t xs).norm d := by simp [norm, toLiquid]
+    rw [e, norm_idem]; simp [toLiquid]
+  | .array t xs => by
+    have e : ((GoVal.array t xs).norm d).toLiquid = (GoVal.array t xs).norm d := by simp [norm, toLiquid]
+    rw [e, norm_idem]; simp [toLiquid]
+  | .map kt vt kvs => by
+    cases hr : isRec (.map kt vt kvs) with
+    | true => rw [norm_of_isRec hr]
+    | false =>
+      have e : ((GoVal.map kt vt kvs).norm d).toLiquid = (GoVal.map kt vt kvs).norm d := by
+        rw [norm_map_nonrec hr]; simp [toLiquid]
+      rw [e, norm_idem]; simp [toLiquid]
+  | .nil | .bool _ | .int _ _ | .flt _ _ | .str _ | .bytes _
+  | .mapSlice _ | .keyedMap _ | .range _ _ | .nilPtr
+  | .struct _ | .time _ => by simp [norm]
+
+theorem toLiquid_repEq {d : Bool} {x x' : GoVal} (h : RepEq d x x') : RepEq d x.toLiquid x'.toLiquid := by
+  unfold RepEq at *
+  rw [norm_toLiquid d x, norm_toLiquid d x', h]
+
 theorem unwrap_ne_ptr_drop (v w : GoVal) : v.unwrap ≠ .ptr (.drop w) := by
   induction v using GoVal.unwrap.induct <;> simp_all [unwrap]
 
@@ -55,15 +117,11 @@ theorem unw_toLiquid {v : GoVal} (h : Unw v) : v.toLiquid = v := by
     | _ => rfl
   | _ => rfl
 
-theorem toLiquid_repEq_false {x x' : GoVal} (h : RepEq false x x') : RepEq false x.toLiquid x'.toLiquid := by
-  rcases repEq_false_cases h with rfl | ⟨h1, h2⟩
-  · rfl
-  · have e1 : x.toLiquid = x := by cases x <;> simp_all [rigidF, toLiquid]
-    have e2 : x'.toLiquid = x' := by cases x' <;> simp_all [rigidF, toLiquid]
-    rw [e1, e2]; exact h
+theorem toLiquid_repEq_false {x x' : GoVal} (h : RepEq false x x') : RepEq false x.toLiquid x'.toLiquid :=
+  toLiquid_repEq h
 
-theorem convElems_rel {xs xs' : List GoVal} (h : normList false xs = normList false xs') :
-    normList false (convElems xs) = normList false (convElems xs') := by
+theorem convElems_rel {d : Bool} {xs xs' : List GoVal} (h : normList d xs = normList d xs') :
+    normList d (convElems xs) = normList d (convElems xs') := by
   induction xs generalizing xs' with
   | nil => cases xs' <;> simp_all [normList, convElems]
   | cons x xs ih =>
@@ -72,10 +130,10 @@ theorem convElems_rel {xs xs' : List GoVal} (h : normList false xs = normList fa
     | cons x' xs' =>
       simp only [normList, List.cons.injEq] at h
       simp only [convElems, List.map_cons, normList, List.cons.injEq]
-      exact ⟨toLiquid_repEq_false h.1, ih h.2⟩
+      exact ⟨toLiquid_repEq h.1, ih h.2⟩
 
-theorem normKVs_vals {kvs kvs' : List (GoVal × GoVal)} (h : normKVs false kvs = normKVs false kvs') :
-    normList false (kvs.map (·.2)) = normList false (kvs'.map (·.2)) := by
+theorem normKVs_vals {d : Bool} {kvs kvs' : List (GoVal × GoVal)} (h : normKVs d kvs = normKVs d kvs') :
+    normList d (kvs.map (·.2)) = normList d (kvs'.map (·.2)) := by
   induction kvs generalizing kvs' with
   | nil => cases kvs' with
     | nil => rfl
@@ -97,15 +155,16 @@ def ParamTy.isScalar : ParamTy → Bool
   | _ => true
 
 /-- converted arguments of two related inputs, by parameter type -/
-def ArgValRel : ParamTy → GoVal → GoVal → Prop
-  | .anys, c, c' => ∃ ys ys', c = .slice .any ys ∧ c' = .slice .any ys' ∧ normList false ys = normList false ys'
-  | .any, c, c' => URel false c c'
+def ArgValRel (d : Bool) : ParamTy → GoVal → GoVal → Prop
+  | .anys, c, c' => ∃ ys ys', c = .slice .any ys ∧ c' = .slice .any ys' ∧ normList d ys = normList d ys' ∧
+      NoDrops ys ∧ NoDrops ys'
+  | .any, c, c' => URel d c c'
   | _, c, c' => c = c'
 
-theorem ArgValRel.scalar {t : ParamTy} (ht : t.isScalar = true) {c c' : GoVal} (h : ArgValRel t c c') : c = c' := by
+theorem ArgValRel.scalar {d : Bool} {t : ParamTy} (ht : t.isScalar = true) {c c' : GoVal} (h : ArgValRel d t c c') : c = c' := by
   cases t <;> simp_all [ParamTy.isScalar, ArgValRel]
 
-theorem ArgValRel.of_eq_scalar {t : ParamTy} (ht : t.isScalar = true) (c : GoVal) : ArgValRel t c c := by
+theorem ArgValRel.of_eq_scalar {d : Bool} {t : ParamTy} (ht : t.isScalar = true) (c : GoVal) : ArgValRel d t c c := by
   cases t <;> simp_all [ParamTy.isScalar, ArgValRel]
 
 theorem sprint_repEq_false {a a' : GoVal} (h : RepEq false a a') : sprint a = sprint a' := by
@@ -118,70 +177,84 @@ theorem sprintR_repEq {d : Bool} {a a' : GoVal} (h : RepEq d a a') : sprintR a =
   rw [← sprintR_norm d a, ← sprintR_norm d a', h]
 
 /-- a scalar parameter receives the same value from related inputs -/
-theorem convert_scalar_rel {t : ParamTy} (ht : t.isScalar = true) {a a' : GoVal} (h : URel false a a') :
+theorem convert_scalar_rel {d : Bool} {t : ParamTy} (ht : t.isScalar = true) {a a' : GoVal} (h : URel d a a') :
     convert a t = convert a' t := by
-  rcases repEq_false_cases h.2.2 with rfl | ⟨h1, h2⟩
+  rcases h.cases with rfl | ⟨h1, h2⟩
   · rfl
-  · have hs := sprint_repEq_false h.2.2
-    have hsR := sprintR_repEq h.2.2
+  · have hsR := sprintR_repEq h.2.2
     unfold convert
     rw [unw_toLiquid h.1, unw_toLiquid h.2.1]
     cases a <;> simp [rigidF] at h1 <;> cases a' <;> simp [rigidF] at h2 <;> cases t <;>
-      simp [ParamTy.isScalar] at ht <;> simp [hs, hsR]
+      simp [ParamTy.isScalar] at ht <;> simp [hsR]
 
-theorem convert_anys_shape {a c : GoVal} (h : convert a .anys = .ok c) : ∃ ys, c = .slice .any ys := by
+theorem rangeInts_noDrops (a b : Int) : NoDrops (rangeInts a b) := by
+  intro y hy
+  simp only [rangeInts, List.mem_map] at hy
+  obtain ⟨i, _, rfl⟩ := hy
+  rfl
+
+theorem bytesElems_noDrops (s : Bytes) : NoDrops (s.map fun b => GoVal.int .u8 b.toNat) := by
+  intro y hy
+  simp only [List.mem_map] at hy
+  obtain ⟨i, _, rfl⟩ := hy
+  rfl
+
+theorem convert_anys_shape {a c : GoVal} (h : convert a .anys = .ok c) : ∃ ys, c = .slice .any ys ∧ NoDrops ys := by
   unfold convert at h
   simp only at h
   split at h <;> first
-    | (injection h with h; exact ⟨_, h.symm⟩)
-    | (split at h <;> first | (injection h with h; exact ⟨_, h.symm⟩) | (split at h <;> first | (injection h with h; exact ⟨_, h.symm⟩) | cases h) | cases h)
+    | (injection h with h; exact ⟨_, h.symm, convElems_noDrops _⟩)
+    | (injection h with h; exact ⟨_, h.symm, bytesElems_noDrops _⟩)
+    | (split at h <;> first | (injection h with h; exact ⟨_, h.symm, rangeInts_noDrops _ _⟩) | (split at h <;> first | (injection h with h; exact ⟨_, h.symm, rangeInts_noDrops _ _⟩) | cases h) | cases h)
     | cases h
     | (next kvs _ =>
         rcases MapOrder.sortedMapEntries_cases (ε := Cause) kvs with ⟨_, h1⟩ | ⟨_, w, h1⟩ <;> rw [h1] at h
-        · injection h with h; exact ⟨_, h.symm⟩
+        · injection h with h; exact ⟨_, h.symm, convElems_noDrops _⟩
         · cases h)
 
 theorem rrel_refl_of {α} {R : α → α → Prop} {t : Bool} (r : Res Cause α) (h : ∀ a, r = .ok a → R a a) : RRel t R r r := by
   cases r <;> simp [RRel]
   exact h _ rfl
 
-theorem convert_anys_rel {a a' : GoVal} (h : URel false a a') :
-    RRel false (ArgValRel .anys) (convert a .anys) (convert a' .anys) := by
-  rcases repEq_false_cases h.2.2 with rfl | ⟨h1, h2⟩
+theorem convert_anys_rel {d : Bool} {a a' : GoVal} (h : URel d a a') :
+    RRel false (ArgValRel d .anys) (convert a .anys) (convert a' .anys) := by
+  rcases h.cases with rfl | ⟨h1, h2⟩
   · refine rrel_refl_of _ (fun c hc => ?_)
-    obtain ⟨ys, rfl⟩ := convert_anys_shape hc
-    exact ⟨ys, ys, rfl, rfl, rfl⟩
+    obtain ⟨ys, rfl, hy⟩ := convert_anys_shape hc
+    exact ⟨ys, ys, rfl, rfl, rfl, hy, hy⟩
   · unfold convert
     rw [unw_toLiquid h.1, unw_toLiquid h.2.1]
     have hnd := h.2.1.noDrop
     cases a with
     | slice t xs =>
       obtain ⟨xs', hs, hn⟩ := norm_inv_seq (u := .slice t xs) rfl hnd h.2.2
-      cases a' <;> simp [seqElems?] at hs <;> subst hs <;> exact ⟨_, _, rfl, rfl, convElems_rel hn⟩
+      cases a' <;> simp [seqElems?] at hs <;> subst hs <;>
+        exact ⟨_, _, rfl, rfl, convElems_rel hn, convElems_noDrops _, convElems_noDrops _⟩
     | array t xs =>
       obtain ⟨xs', hs, hn⟩ := norm_inv_seq (u := .array t xs) rfl hnd h.2.2
-      cases a' <;> simp [seqElems?] at hs <;> subst hs <;> exact ⟨_, _, rfl, rfl, convElems_rel hn⟩
+      cases a' <;> simp [seqElems?] at hs <;> subst hs <;>
+        exact ⟨_, _, rfl, rfl, convElems_rel hn, convElems_noDrops _, convElems_noDrops _⟩
     | map kt vt kvs =>
       rcases norm_inv_map hnd h.2.2 with rfl | ⟨_, vt', kvs', rfl, _, hn⟩
       · simp only
         rcases MapOrder.sortedMapEntries_cases (ε := Cause) kvs with ⟨_, h1⟩ | ⟨_, w, h1⟩ <;> rw [h1]
-        · exact ⟨_, _, rfl, rfl, rfl⟩
+        · exact ⟨_, _, rfl, rfl, rfl, convElems_noDrops _, convElems_noDrops _⟩
         · simp [RRel]
       · simp only
         rcases sortedMapEntries_norm_rel hn with ⟨es, es', h1, h2, hs⟩ | ⟨w, h1, h2⟩ <;> rw [h1, h2]
-        · exact ⟨_, _, rfl, rfl, convElems_rel (normKVs_vals hs)⟩
+        · exact ⟨_, _, rfl, rfl, convElems_rel (normKVs_vals hs), convElems_noDrops _, convElems_noDrops _⟩
         · simp [RRel]
     | _ => simp [rigidF] at h1
 
-theorem convert_any_rel {a a' : GoVal} (h : URel false a a') :
-    RRel false (ArgValRel .any) (convert a .any) (convert a' .any) := by
+theorem convert_any_rel {d : Bool} {a a' : GoVal} (h : URel d a a') :
+    RRel false (ArgValRel d .any) (convert a .any) (convert a' .any) := by
   unfold convert convAny
   rw [unw_toLiquid h.1, unw_toLiquid h.2.1]
   have hn := isNil_rel h.1 h.2.1 h.2.2
   cases a <;> cases a' <;> simp [GoVal.isNil] at hn <;> simp [RRel, ArgValRel] <;> exact h
 
-theorem convert_rel (t : ParamTy) {a a' : GoVal} (h : URel false a a') :
-    RRel false (ArgValRel t) (convert a t) (convert a' t) := by
+theorem convert_rel {d : Bool} (t : ParamTy) {a a' : GoVal} (h : URel d a a') :
+    RRel false (ArgValRel d t) (convert a t) (convert a' t) := by
   cases ht : t.isScalar with
   | true =>
     rw [convert_scalar_rel ht h]
@@ -193,37 +266,38 @@ theorem convert_rel (t : ParamTy) {a a' : GoVal} (h : URel false a a') :
 
 /-! ## `values.Call`: the converted argument lists -/
 
-def ArgRel : Param → Arg → Arg → Prop
-  | .val t, .val c, .val c' => ArgValRel t c c'
+def ArgRel (d : Bool) : Param → Arg → Arg → Prop
+  | .val t, .val c, .val c' => ArgValRel d t c c'
   | .fn _, .fn none, .fn none => True
-  | .fn t, .fn (some r), .fn (some r') => RRel false (ArgValRel t) r r'
+  | .fn t, .fn (some r), .fn (some r') => RRel false (ArgValRel d t) r r'
   | _, _, _ => False
 
-def ArgsRel : List Param → List Arg → List Arg → Prop
+def ArgsRel (d : Bool) : List Param → List Arg → List Arg → Prop
   | [], [], [] => True
-  | p :: ps, a :: as, a' :: as' => ArgRel p a a' ∧ ArgsRel ps as as'
+  | p :: ps, a :: as, a' :: as' => ArgRel d p a a' ∧ ArgsRel d ps as as'
   | _, _, _ => False
 
-theorem zero_argValRel (t : ParamTy) : ArgValRel t t.zero t.zero := by
+theorem zero_argValRel (d : Bool) (t : ParamTy) : ArgValRel d t t.zero t.zero := by
   cases t <;> simp [ArgValRel, ParamTy.zero]
   · exact URel.refl_unw rfl
+  · exact NoDrops.nil
 
-theorem convertArgs_nil_rel : ∀ ps : List Param, RRel false (ArgsRel ps) (convertArgs ps []) (convertArgs ps [])
+theorem convertArgs_nil_rel {d : Bool} : ∀ ps : List Param, RRel false (ArgsRel d ps) (convertArgs ps []) (convertArgs ps [])
   | [] => by simp [convertArgs, RRel, ArgsRel]
   | .fn t :: ps => by
     simp only [convertArgs]
     exact RRel.bind (convertArgs_nil_rel ps) (fun r r' h => ⟨trivial, h⟩)
   | .val t :: ps => by
     simp only [convertArgs]
-    exact RRel.bind (convertArgs_nil_rel ps) (fun r r' h => ⟨zero_argValRel t, h⟩)
+    exact RRel.bind (convertArgs_nil_rel ps) (fun r r' h => ⟨zero_argValRel d t, h⟩)
 
-theorem urel_nil_iff {a a' : GoVal} (h : URel false a a') : a = .nil ↔ a' = .nil := by
+theorem urel_nil_iff {d : Bool} {a a' : GoVal} (h : URel d a a') : a = .nil ↔ a' = .nil := by
   constructor
-  · rintro rfl; exact repEq_false_rigid rfl h.2.2
-  · rintro rfl; exact repEq_false_rigid rfl h.2.2.symm
+  · rintro rfl; exact norm_inv_rigid rfl h.2.1.noDrop h.2.2
+  · rintro rfl; exact norm_inv_rigid rfl h.1.noDrop h.2.2.symm
 
-theorem convertArgs_rel : ∀ (ps : List Param) {as as' : List GoVal}, All2 (URel false) as as' →
-    RRel false (ArgsRel ps) (convertArgs ps as) (convertArgs ps as')
+theorem convertArgs_rel {d : Bool} : ∀ (ps : List Param) {as as' : List GoVal}, All2 (URel d) as as' →
+    RRel false (ArgsRel d ps) (convertArgs ps as) (convertArgs ps as')
   | ps, [], [], .nil => convertArgs_nil_rel ps
   | [], _ :: _, _ :: _, .cons _ _ => by simp [convertArgs, RRel, ArgsRel]
   | .fn t :: ps, a :: as, a' :: as', .cons ha has => by
@@ -234,7 +308,7 @@ theorem convertArgs_rel : ∀ (ps : List Param) {as as' : List GoVal}, All2 (URe
     · have hn' := (urel_nil_iff ha).mp hn
       subst hn hn'
       simp only [convertArgs]
-      exact RRel.bind (convertArgs_rel ps has) (fun r r' h => ⟨zero_argValRel t, h⟩)
+      exact RRel.bind (convertArgs_rel ps has) (fun r r' h => ⟨zero_argValRel d t, h⟩)
     · have hn' : a' ≠ .nil := fun e => hn ((urel_nil_iff ha).mpr e)
       have e1 : convertArgs (.val t :: ps) (a :: as) =
           (convert a t).bind fun c => (convertArgs ps as).bind fun r => .ok (.val c :: r) := by
@@ -248,11 +322,21 @@ theorem convertArgs_rel : ∀ (ps : List Param) {as as' : List GoVal}, All2 (URe
 
 /-! ## `ApplyFilter` -/
 
-/-- results of a filter body -/
-def ExRel : Except Cause GoVal → Except Cause GoVal → Prop
-  | .ok v, .ok v' => RepEq false v v'
+/-- results of a filter body, as `ApplyFilter` hands them on (a `[]byte` result is a string) -/
+def ExRel (d : Bool) : Except Cause GoVal → Except Cause GoVal → Prop
+  | .ok v, .ok v' => VRel d (bytesToString v) (bytesToString v')
   | .error c, .error c' => c = c'
   | _, _ => False
+
+/-- related results that are no drops (every filter body returns an element that went through `ToLiquid`, or a
+    value it built) -/
+theorem bytesToString_rel_noDrop {d : Bool} {v v' : GoVal} (h : RepEq d v v') (hv : noDrop v = true) (hv' : noDrop v' = true) :
+    VRel d (bytesToString v) (bytesToString v') := by
+  rcases repEq_noDrop_cases hv hv' h with rfl | ⟨h1, h2⟩
+  · exact VRel.refl _
+  · have e1 : bytesToString v = v := by cases v <;> simp_all [rigidF, bytesToString]
+    have e2 : bytesToString v' = v' := by cases v' <;> simp_all [rigidF, bytesToString]
+    rw [e1, e2]; exact h.vrel
 
 theorem bytesToString_rel {v v' : GoVal} (h : RepEq false v v') : VRel false (bytesToString v) (bytesToString v') := by
   rcases repEq_false_cases h with rfl | ⟨h1, h2⟩
@@ -262,19 +346,19 @@ theorem bytesToString_rel {v v' : GoVal} (h : RepEq false v v') : VRel false (by
     rw [e1, e2]; exact h.vrel
 
 /-- the body of a filter respects the equivalence on converted argument lists -/
-def ImplRespects (t : Bool) (ps : List Param) (f : FilterImpl) : Prop :=
-  ∀ cs cs', ArgsRel ps cs cs' → RRel t ExRel (f cs) (f cs')
+def ImplRespects (t d : Bool) (ps : List Param) (f : FilterImpl) : Prop :=
+  ∀ cs cs', ArgsRel d ps cs cs' → RRel t (ExRel d) (f cs) (f cs')
 
 /-- a standard filter respects the equivalence (receiver and arguments unwrapped, as they reach it) -/
-def FilterRespects (t : Bool) (name : Bytes) : Prop :=
-  ∀ r r' as as', URel false r r' → All2 (URel false) as as' →
-    RRel t (VRel false) (stdPrims.applyFilter name r as) (stdPrims.applyFilter name r' as')
+def FilterRespects (t d : Bool) (name : Bytes) : Prop :=
+  ∀ r r' as as', URel d r r' → All2 (URel d) as as' →
+    RRel t (VRel d) (stdPrims.applyFilter name r as) (stdPrims.applyFilter name r' as')
 
-theorem filterRespects_of_impl {t : Bool} (name : Bytes)
-    (h : ∀ sg f, lookupSig name = some sg → lookupImpl stdFilterImpls name = some f → ImplRespects t sg.params f) :
-    FilterRespects t name := by
+theorem filterRespects_of_impl {t d : Bool} (name : Bytes)
+    (h : ∀ sg f, lookupSig name = some sg → lookupImpl stdFilterImpls name = some f → ImplRespects t d sg.params f) :
+    FilterRespects t d name := by
   intro r r' as as' hr has
-  show RRel t (VRel false) (applyFilter (lookupImpl stdFilterImpls) name r as) (applyFilter (lookupImpl stdFilterImpls) name r' as')
+  show RRel t (VRel d) (applyFilter (lookupImpl stdFilterImpls) name r as) (applyFilter (lookupImpl stdFilterImpls) name r' as')
   unfold applyFilter
   cases hs : lookupSig name with
   | none => simp [RRel]
@@ -292,7 +376,7 @@ theorem filterRespects_of_impl {t : Bool} (name : Bytes)
         refine RRel.bind (h sg f hs hf cs cs' hcs) (fun e e' he => ?_)
         cases e <;> cases e' <;> simp only [ExRel] at he
         · subst he; simp [RRel]
-        · exact bytesToString_rel he
+        · exact he
 
 /-- all parameters of the signature are scalar -/
 def scalarParams : List Param → Bool
@@ -300,7 +384,7 @@ def scalarParams : List Param → Bool
   | .val t :: ps => t.isScalar && scalarParams ps
   | .fn t :: ps => t.isScalar && scalarParams ps
 
-theorem argsRel_scalar_eq : ∀ {ps : List Param} {cs cs' : List Arg}, scalarParams ps = true → ArgsRel ps cs cs' → cs = cs'
+theorem argsRel_scalar_eq {d : Bool} : ∀ {ps : List Param} {cs cs' : List Arg}, scalarParams ps = true → ArgsRel d ps cs cs' → cs = cs'
   | [], [], [], _, _ => rfl
   | [], [], _ :: _, _, h => by simp [ArgsRel] at h
   | [], _ :: _, _, _, h => by simp [ArgsRel] at h
@@ -336,22 +420,22 @@ theorem argsRel_scalar_eq : ∀ {ps : List Param} {cs cs' : List Arg}, scalarPar
             rw [RRel.eq this]
 
 /-- every filter whose parameters are all of scalar type respects the equivalence, whatever its body -/
-theorem filterRespects_of_scalar (t : Bool) (name : Bytes)
-    (h : ∀ sg, lookupSig name = some sg → scalarParams sg.params = true) : FilterRespects t name :=
+theorem filterRespects_of_scalar (t d : Bool) (name : Bytes)
+    (h : ∀ sg, lookupSig name = some sg → scalarParams sg.params = true) : FilterRespects t d name :=
   filterRespects_of_impl name (fun sg f hs _ cs cs' hcs => by
     rw [argsRel_scalar_eq (h sg hs) hcs]
-    exact RRel.of_eq (fun e => by cases e <;> simp [ExRel, RepEq.refl]) rfl)
+    exact RRel.of_eq (fun e => by cases e <;> simp [ExRel, VRel.refl]) rfl)
 
 /-- a filter without a modelled body is `unmodelled` on both sides -/
-theorem filterRespects_of_noImpl (t : Bool) (name : Bytes) (h : lookupImpl stdFilterImpls name = none) :
-    FilterRespects t name :=
+theorem filterRespects_of_noImpl (t d : Bool) (name : Bytes) (h : lookupImpl stdFilterImpls name = none) :
+    FilterRespects t d name :=
   filterRespects_of_impl name (fun sg f _ hf => by rw [h] at hf; cases hf)
 
 /-! ## The filters with `[]any` and `any` parameters -/
 
 /-- a one-element related argument list -/
-theorem argsRel_cons {p : Param} {ps : List Param} {cs cs' : List Arg} (h : ArgsRel (p :: ps) cs cs') :
-    ∃ a as a' as', cs = a :: as ∧ cs' = a' :: as' ∧ ArgRel p a a' ∧ ArgsRel ps as as' := by
+theorem argsRel_cons {d : Bool} {p : Param} {ps : List Param} {cs cs' : List Arg} (h : ArgsRel d (p :: ps) cs cs') :
+    ∃ a as a' as', cs = a :: as ∧ cs' = a' :: as' ∧ ArgRel d p a a' ∧ ArgsRel d ps as as' := by
   cases cs with
   | nil => simp [ArgsRel] at h
   | cons a as =>
@@ -359,22 +443,34 @@ theorem argsRel_cons {p : Param} {ps : List Param} {cs cs' : List Arg} (h : Args
     | nil => simp [ArgsRel] at h
     | cons a' as' => exact ⟨a, as, a', as', rfl, rfl, h.1, h.2⟩
 
-theorem argsRel_nil {cs cs' : List Arg} (h : ArgsRel [] cs cs') : cs = [] ∧ cs' = [] := by
+theorem argsRel_nil {d : Bool} {cs cs' : List Arg} (h : ArgsRel d [] cs cs') : cs = [] ∧ cs' = [] := by
   cases cs <;> cases cs' <;> simp_all [ArgsRel]
 
-theorem argRel_val {t : ParamTy} {a a' : Arg} (h : ArgRel (.val t) a a') : ∃ c c', a = .val c ∧ a' = .val c' ∧ ArgValRel t c c' := by
+theorem argRel_val {d : Bool} {t : ParamTy} {a a' : Arg} (h : ArgRel d (.val t) a a') : ∃ c c', a = .val c ∧ a' = .val c' ∧ ArgValRel d t c c' := by
   cases a <;> cases a' <;> simp only [ArgRel] at h
   exact ⟨_, _, rfl, rfl, h⟩
 
-theorem argsRel_anys1 {cs cs' : List Arg} (h : ArgsRel [.val .anys] cs cs') :
-    ∃ ys ys', cs = [.val (.slice .any ys)] ∧ cs' = [.val (.slice .any ys')] ∧ normList false ys = normList false ys' := by
+theorem argsRel_anys1 {d : Bool} {cs cs' : List Arg} (h : ArgsRel d [.val .anys] cs cs') :
+    ∃ ys ys', cs = [.val (.slice .any ys)] ∧ cs' = [.val (.slice .any ys')] ∧ normList d ys = normList d ys' ∧
+      NoDrops ys ∧ NoDrops ys' := by
   obtain ⟨a, as, a', as', rfl, rfl, h1, h2⟩ := argsRel_cons h
   obtain ⟨rfl, rfl⟩ := argsRel_nil h2
   obtain ⟨c, c', rfl, rfl, ys, ys', rfl, rfl, hn⟩ := argRel_val h1
   exact ⟨ys, ys', rfl, rfl, hn⟩
 
-theorem exrel_ok {t : Bool} {v v' : GoVal} (h : RepEq false v v') :
-    RRel t ExRel (.ok (.ok v)) (.ok (.ok v')) := h
+/-- a related result that is no drop on either side -/
+theorem exrel_ok {t d : Bool} {v v' : GoVal} (h : RepEq d v v') (hv : noDrop v = true) (hv' : noDrop v' = true) :
+    RRel t (ExRel d) (.ok (.ok v)) (.ok (.ok v')) := bytesToString_rel_noDrop h hv hv'
+
+theorem head_noDrop {ys : List GoVal} (h : NoDrops ys) : noDrop (ys.head?.getD .nil) = true := by
+  cases ys with
+  | nil => rfl
+  | cons y ys => exact h.head
+
+theorem getLast_noDrop {ys : List GoVal} (h : NoDrops ys) : noDrop (ys.getLast?.getD .nil) = true := by
+  cases hl : ys.getLast? with
+  | none => rfl
+  | some y => exact h y (List.mem_of_getLast? hl)
 
 namespace ArrF
 
@@ -385,17 +481,17 @@ theorem lastF_getLast : ∀ xs : List GoVal, lastF xs = xs.getLast?.getD .nil
   | [x] => rfl
   | x :: y :: r => by rw [lastF, lastF_getLast (y :: r)]; simp [List.getLast?_cons_cons]
 
-theorem first_respects (t : Bool) : ImplRespects t [.val .anys] (eager first) := by
+theorem first_respects (t d : Bool) : ImplRespects t d [.val .anys] (eager first) := by
   intro cs cs' h
-  obtain ⟨ys, ys', rfl, rfl, hn⟩ := argsRel_anys1 h
+  obtain ⟨ys, ys', rfl, rfl, hn, hy, hy'⟩ := argsRel_anys1 h
   simp only [eager, FilterImpl.ofEager, FilterImpl.ofEager.collect, Res.bind, first, ret, firstF_head]
-  exact exrel_ok (normList_head hn)
+  exact exrel_ok (normList_head hn) (head_noDrop hy) (head_noDrop hy')
 
-theorem last_respects (t : Bool) : ImplRespects t [.val .anys] (eager last) := by
+theorem last_respects (t d : Bool) : ImplRespects t d [.val .anys] (eager last) := by
   intro cs cs' h
-  obtain ⟨ys, ys', rfl, rfl, hn⟩ := argsRel_anys1 h
+  obtain ⟨ys, ys', rfl, rfl, hn, hy, hy'⟩ := argsRel_anys1 h
   simp only [eager, FilterImpl.ofEager, FilterImpl.ofEager.collect, Res.bind, last, ret, lastF_getLast]
-  exact exrel_ok (normList_getLast hn)
+  exact exrel_ok (normList_getLast hn) (getLast_noDrop hy) (getLast_noDrop hy')
 
 theorem reverseF_rev (xs : List GoVal) : reverseF xs = xs.reverse := by
   unfold reverseF
@@ -405,15 +501,20 @@ theorem reverseF_rev (xs : List GoVal) : reverseF xs = xs.reverse := by
     | cons x xs ih => intro acc; simp [List.foldl, ih]
   simp [this []]
 
-theorem slice_any_rel {ys ys' : List GoVal} (h : normList false ys = normList false ys') :
-    RepEq false (.slice .any ys) (.slice .any ys') := by
+theorem slice_any_rel {d : Bool} {ys ys' : List GoVal} (h : normList d ys = normList d ys') :
+    RepEq d (.slice .any ys) (.slice .any ys') := by
   simp only [RepEq, norm, h]
 
-theorem reverse_respects (t : Bool) : ImplRespects t [.val .anys] (eager reverse) := by
+/-- an array result -/
+theorem exrel_slice {t d : Bool} {ys ys' : List GoVal} (h : normList d ys = normList d ys') :
+    RRel t (ExRel d) (.ok (.ok (.slice .any ys))) (.ok (.ok (.slice .any ys'))) :=
+  exrel_ok (slice_any_rel h) rfl rfl
+
+theorem reverse_respects (t d : Bool) : ImplRespects t d [.val .anys] (eager reverse) := by
   intro cs cs' h
-  obtain ⟨ys, ys', rfl, rfl, hn⟩ := argsRel_anys1 h
+  obtain ⟨ys, ys', rfl, rfl, hn, _, _⟩ := argsRel_anys1 h
   simp only [eager, FilterImpl.ofEager, FilterImpl.ofEager.collect, Res.bind, reverse, ret, reverseF_rev]
-  refine exrel_ok (slice_any_rel ?_)
+  refine exrel_slice ?_
   simp only [normList_eq_map, List.map_reverse] at hn ⊢
   rw [hn]
 
@@ -422,24 +523,31 @@ theorem isNil_repEq_false {x x' : GoVal} (h : RepEq false x x') : x.isNil = x'.i
   · rfl
   · cases x <;> cases x' <;> simp_all [rigidF, GoVal.isNil]
 
-theorem compactF_rel : ∀ {ys ys' : List GoVal}, normList false ys = normList false ys' →
-    normList false (compactF ys) = normList false (compactF ys')
-  | [], [], _ => rfl
-  | [], _ :: _, h => by simp [normList] at h
-  | _ :: _, [], h => by simp [normList] at h
-  | y :: ys, y' :: ys', h => by
+/-- `item != nil` on elements that went through `ToLiquid` (a drop that yields nil IS nil there) -/
+theorem isNil_repEq_noDrop {d : Bool} {x x' : GoVal} (hx : noDrop x = true) (hx' : noDrop x' = true) (h : RepEq d x x') :
+    x.isNil = x'.isNil := by
+  rcases repEq_noDrop_cases hx hx' h with rfl | ⟨h1, h2⟩
+  · rfl
+  · cases x <;> cases x' <;> simp_all [rigidF, GoVal.isNil]
+
+theorem compactF_rel {d : Bool} : ∀ {ys ys' : List GoVal}, normList d ys = normList d ys' → NoDrops ys → NoDrops ys' →
+    normList d (compactF ys) = normList d (compactF ys')
+  | [], [], _, _, _ => rfl
+  | [], _ :: _, h, _, _ => by simp [normList] at h
+  | _ :: _, [], h, _, _ => by simp [normList] at h
+  | y :: ys, y' :: ys', h, hy, hy' => by
     simp only [normList, List.cons.injEq] at h
-    have ih := compactF_rel h.2
-    simp only [compactF, isNil_repEq_false h.1]
+    have ih := compactF_rel h.2 hy.tail hy'.tail
+    simp only [compactF, isNil_repEq_noDrop hy.head hy'.head h.1]
     split
     · exact ih
     · simp only [normList, ih, h.1]
 
-theorem compact_respects (t : Bool) : ImplRespects t [.val .anys] (eager compact) := by
+theorem compact_respects (t d : Bool) : ImplRespects t d [.val .anys] (eager compact) := by
   intro cs cs' h
-  obtain ⟨ys, ys', rfl, rfl, hn⟩ := argsRel_anys1 h
+  obtain ⟨ys, ys', rfl, rfl, hn, hy, hy'⟩ := argsRel_anys1 h
   simp only [eager, FilterImpl.ofEager, FilterImpl.ofEager.collect, Res.bind, compact, ret]
-  exact exrel_ok (slice_any_rel (compactF_rel hn))
+  exact exrel_slice (compactF_rel hn hy hy')
 
 /-! ### `uniq` (after `fixes/nested-drops-resolved`: elements are compared by what they hold) -/
 
@@ -520,46 +628,46 @@ theorem uniqOn_rel {d : Bool} : ∀ {ys ys' : List GoVal}, normList d ys = normL
     · simp only [normList, h.1, uniqOn_rel h.2 _]
 
 /-- `uniq` respects representation equivalence: it no longer observes the Go types of nested containers -/
-theorem uniq_respects (t : Bool) : ImplRespects t [.val .anys] (eager uniq) := by
+theorem uniq_respects (t d : Bool) : ImplRespects t d [.val .anys] (eager uniq) := by
   intro cs cs' h
-  obtain ⟨ys, ys', rfl, rfl, hn⟩ := argsRel_anys1 h
+  obtain ⟨ys, ys', rfl, rfl, hn, _, _⟩ := argsRel_anys1 h
   simp only [eager, FilterImpl.ofEager, FilterImpl.ofEager.collect, Res.bind, uniq, any_hasPtr_rel hn]
   cases ys'.any hasPtr with
-  | true => exact RRel.of_eq (fun e => by cases e <;> simp [ExRel, RepEq.refl]) rfl
+  | true => exact RRel.of_eq (fun e => by cases e <;> simp [ExRel, VRel.refl]) rfl
   | false =>
     simp only [Bool.false_eq_true, if_false, ret, uniqF]
-    exact exrel_ok (slice_any_rel (uniqOn_rel hn []))
+    exact exrel_slice (uniqOn_rel hn [])
 
 end ArrF
 
 namespace ArrF
 
-theorem concat_respects (t : Bool) : ImplRespects t [.val .anys, .val .anys] (eager concat) := by
+theorem concat_respects (t d : Bool) : ImplRespects t d [.val .anys, .val .anys] (eager concat) := by
   intro cs cs' h
   obtain ⟨a, as, a', as', rfl, rfl, h1, h2⟩ := argsRel_cons h
-  obtain ⟨ys, ys', rfl, rfl, hn⟩ := argsRel_anys1 h2
-  obtain ⟨c, c', rfl, rfl, xs, xs', rfl, rfl, hx⟩ := argRel_val h1
+  obtain ⟨ys, ys', rfl, rfl, hn, _, _⟩ := argsRel_anys1 h2
+  obtain ⟨c, c', rfl, rfl, xs, xs', rfl, rfl, hx, _, _⟩ := argRel_val h1
   simp only [eager, FilterImpl.ofEager, FilterImpl.ofEager.collect, Res.bind, concat, ret, concatF]
-  refine exrel_ok (slice_any_rel ?_)
+  refine exrel_slice ?_
   simp only [normList_eq_map, List.map_append] at hn hx ⊢
   rw [hn, hx]
 
-theorem sprintNonNil_rel : ∀ {ys ys' : List GoVal}, normList false ys = normList false ys' →
+theorem sprintNonNil_rel {d : Bool} : ∀ {ys ys' : List GoVal}, normList d ys = normList d ys' → NoDrops ys → NoDrops ys' →
     sprintNonNil ys = sprintNonNil ys'
-  | [], [], _ => rfl
-  | [], _ :: _, h => by simp [normList] at h
-  | _ :: _, [], h => by simp [normList] at h
-  | y :: ys, y' :: ys', h => by
+  | [], [], _, _, _ => rfl
+  | [], _ :: _, h, _, _ => by simp [normList] at h
+  | _ :: _, [], h, _, _ => by simp [normList] at h
+  | y :: ys, y' :: ys', h, hy, hy' => by
     simp only [normList, List.cons.injEq] at h
-    simp only [sprintNonNil, isNil_repEq_false h.1, sprintR_repEq h.1, sprintNonNil_rel h.2]
+    simp only [sprintNonNil, isNil_repEq_noDrop hy.head hy'.head h.1, sprintR_repEq h.1, sprintNonNil_rel h.2 hy.tail hy'.tail]
 
-theorem join_respects (t : Bool) : ImplRespects t [.val .anys, .fn .str] (eager join) := by
+theorem join_respects (t d : Bool) : ImplRespects t d [.val .anys, .fn .str] (eager join) := by
   intro cs cs' h
   obtain ⟨a, as, a', as', rfl, rfl, h1, h2⟩ := argsRel_cons h
   obtain ⟨b, bs, b', bs', rfl, rfl, h3, h4⟩ := argsRel_cons h2
   obtain ⟨rfl, rfl⟩ := argsRel_nil h4
-  obtain ⟨c, c', rfl, rfl, xs, xs', rfl, rfl, hx⟩ := argRel_val h1
-  have hs := sprintNonNil_rel hx
+  obtain ⟨c, c', rfl, rfl, xs, xs', rfl, rfl, hx, hxn, hxn'⟩ := argRel_val h1
+  have hs := sprintNonNil_rel hx hxn hxn'
   cases b with
   | val v => cases b' <;> simp only [ArgRel] at h3
   | fn o =>
@@ -570,7 +678,7 @@ theorem join_respects (t : Bool) : ImplRespects t [.val .anys, .fn .str] (eager 
       | none =>
         cases o' <;> simp only [ArgRel] at h3
         simp only [eager, FilterImpl.ofEager, FilterImpl.ofEager.collect, Res.bind, join, joinF, hs]
-        exact RRel.of_eq (fun e => by cases e <;> simp [ExRel, RepEq.refl]) rfl
+        exact RRel.of_eq (fun e => by cases e <;> simp [ExRel, VRel.refl]) rfl
       | some r =>
         cases o' with
         | none => simp only [ArgRel] at h3
@@ -584,19 +692,19 @@ theorem join_respects (t : Bool) : ImplRespects t [.val .anys, .fn .str] (eager 
           | ok v =>
             simp only [Res.bind]
             cases v <;> simp only [join, joinF, hs, badArgs] <;>
-              exact RRel.of_eq (fun e => by cases e <;> simp [ExRel, RepEq.refl]) rfl
+              exact RRel.of_eq (fun e => by cases e <;> simp [ExRel, VRel.refl]) rfl
           | _ => simp [Res.bind, RRel]
 
-theorem propOf_rel {x x' : GoVal} (h : RepEq false x x') (k : Bytes) :
-    RRel false (RepEq false) (propOf x k) (propOf x' k) := by
+theorem propOf_rel {d : Bool} {x x' : GoVal} (h : RepEq d x x') (k : Bytes) :
+    RRel false (RepEq d) (propOf x k) (propOf x' k) := by
   have := propertyValue_rel h.vrel k
   unfold propOf
   cases h1 : x.propertyValue k <;> cases h2 : x'.propertyValue k <;> rw [h1, h2] at this <;> simp only [LRel] at this
   · exact this.unwrap
   · exact .inr this
 
-theorem mapF_rel (k : Bytes) : ∀ {ys ys' : List GoVal}, normList false ys = normList false ys' →
-    RRel false (fun vs vs' => normList false vs = normList false vs') (mapF k ys) (mapF k ys')
+theorem mapF_rel {d : Bool} (k : Bytes) : ∀ {ys ys' : List GoVal}, normList d ys = normList d ys' →
+    RRel false (fun vs vs' => normList d vs = normList d vs') (mapF k ys) (mapF k ys')
   | [], [], _ => by simp [mapF, RRel]
   | [], _ :: _, h => by simp [normList] at h
   | _ :: _, [], h => by simp [normList] at h
@@ -607,22 +715,22 @@ theorem mapF_rel (k : Bytes) : ∀ {ys ys' : List GoVal}, normList false ys = no
     simp only [RRel, normList, hvs]
     rw [hv]
 
-theorem map_respects (t : Bool) : ImplRespects t [.val .anys, .val .str] (eager map) := by
+theorem map_respects (t d : Bool) : ImplRespects t d [.val .anys, .val .str] (eager map) := by
   intro cs cs' h
   obtain ⟨a, as, a', as', rfl, rfl, h1, h2⟩ := argsRel_cons h
   obtain ⟨b, bs, b', bs', rfl, rfl, h3, h4⟩ := argsRel_cons h2
   obtain ⟨rfl, rfl⟩ := argsRel_nil h4
-  obtain ⟨c, c', rfl, rfl, xs, xs', rfl, rfl, hx⟩ := argRel_val h1
+  obtain ⟨c, c', rfl, rfl, xs, xs', rfl, rfl, hx, _, _⟩ := argRel_val h1
   obtain ⟨k, k', rfl, rfl, hk⟩ := argRel_val h3
   simp only [ArgValRel] at hk
   subst hk
   simp only [eager, FilterImpl.ofEager, FilterImpl.ofEager.collect, Res.bind]
-  cases k <;> simp only [map, badArgs] <;> try (exact RRel.of_eq (fun e => by cases e <;> simp [ExRel, RepEq.refl]) rfl)
+  cases k <;> simp only [map, badArgs] <;> try (exact RRel.of_eq (fun e => by cases e <;> simp [ExRel, VRel.refl]) rfl)
   next s =>
     have := mapF_rel s hx
     cases h1 : mapF s xs <;> cases h2 : mapF s xs' <;> rw [h1, h2] at this <;> simp only [RRel] at this <;>
       simp only [Res.bind, ret, RRel] <;> first
-        | exact slice_any_rel this
+        | exact bytesToString_rel_noDrop (slice_any_rel this) rfl rfl
         | exact this
         | (rcases this with h | h <;> simp_all)
 
@@ -630,21 +738,21 @@ end ArrF
 
 namespace Num
 
-theorem argsRel_any1 {cs cs' : List Arg} (h : ArgsRel [.val .any] cs cs') :
-    ∃ v v', cs = [.val v] ∧ cs' = [.val v'] ∧ URel false v v' := by
+theorem argsRel_any1 {d : Bool} {cs cs' : List Arg} (h : ArgsRel d [.val .any] cs cs') :
+    ∃ v v', cs = [.val v] ∧ cs' = [.val v'] ∧ URel d v v' := by
   obtain ⟨a, as, a', as', rfl, rfl, h1, h2⟩ := argsRel_cons h
   obtain ⟨rfl, rfl⟩ := argsRel_nil h2
   obtain ⟨c, c', rfl, rfl, hc⟩ := argRel_val h1
   exact ⟨c, c', rfl, rfl, hc⟩
 
-theorem exrel_refl (t : Bool) (r : Res Cause (Except Cause GoVal)) : RRel t ExRel r r :=
-  RRel.of_eq (fun e => by cases e <;> simp [ExRel, RepEq.refl]) rfl
+theorem exrel_refl (t : Bool) {d : Bool} (r : Res Cause (Except Cause GoVal)) : RRel t (ExRel d) r r :=
+  RRel.of_eq (fun e => by cases e <;> simp [ExRel, VRel.refl]) rfl
 
-theorem size_respects (t : Bool) : ImplRespects t [.val .any] size := by
+theorem size_respects (t d : Bool) : ImplRespects t d [.val .any] size := by
   intro cs cs' h
   obtain ⟨v, v', rfl, rfl, hv⟩ := argsRel_any1 h
   simp only [size, unw_toLiquid hv.1, unw_toLiquid hv.2.1]
-  rcases repEq_false_cases hv.2.2 with rfl | ⟨h1, h2⟩
+  rcases hv.cases with rfl | ⟨h1, h2⟩
   · exact exrel_refl t _
   · have hnd := hv.2.1.noDrop
     cases v with
@@ -663,8 +771,8 @@ theorem size_respects (t : Bool) : ImplRespects t [.val .any] size := by
 theorem isEmpty_len {α β} {xs : List α} {ys : List β} (h : xs.length = ys.length) : xs.isEmpty = ys.isEmpty := by
   cases xs <;> cases ys <;> simp_all
 
-theorem isEmpty_rel {v v' : GoVal} (hv : URel false v v') : isEmpty v = isEmpty v' := by
-  rcases repEq_false_cases hv.2.2 with rfl | ⟨h1, h2⟩
+theorem isEmpty_rel {d : Bool} {v v' : GoVal} (hv : URel d v v') : isEmpty v = isEmpty v' := by
+  rcases hv.cases with rfl | ⟨h1, h2⟩
   · rfl
   · have hnd := hv.2.1.noDrop
     cases v with
@@ -682,35 +790,37 @@ theorem isEmpty_rel {v v' : GoVal} (hv : URel false v v') : isEmpty v = isEmpty 
       · exact isEmpty_len (normKVs_length hn)
     | _ => simp [rigidF] at h1
 
-theorem default_respects (t : Bool) : ImplRespects t [.val .any, .val .any] default := by
+theorem default_respects (t d : Bool) : ImplRespects t d [.val .any, .val .any] default := by
   intro cs cs' h
   obtain ⟨a, as, a', as', rfl, rfl, h1, h2⟩ := argsRel_cons h
   obtain ⟨dv, dv', rfl, rfl, hd⟩ := argsRel_any1 h2
   obtain ⟨v, v', rfl, rfl, hv⟩ := argRel_val h1
   simp only [ArgValRel] at hv
   simp only [default, ret]
-  rcases repEq_false_cases hv.2.2 with rfl | ⟨hr1, hr2⟩
-  · have key : ∀ c : Bool, RRel t ExRel (.ok (.ok (if c = true then dv else v'))) (.ok (.ok (if c = true then dv' else v'))) := by
+  have hdd := exrel_ok (t := t) hd.2.2 hd.1.noDrop hd.2.1.noDrop
+  have hvv := exrel_ok (t := t) hv.2.2 hv.1.noDrop hv.2.1.noDrop
+  rcases hv.cases with rfl | ⟨hr1, hr2⟩
+  · have key : ∀ c : Bool, RRel t (ExRel d) (.ok (.ok (if c = true then dv else v'))) (.ok (.ok (if c = true then dv' else v'))) := by
       intro c
       cases c
-      · exact exrel_ok (RepEq.refl _)
-      · exact exrel_ok hd.2.2
+      · exact hvv
+      · exact hdd
     exact key _
   · have := isEmpty_rel hv
     rw [← unw_toLiquid hv.1, ← unw_toLiquid hv.2.1] at this
     cases v <;> simp [rigidF] at hr1 <;> cases v' <;> simp [rigidF] at hr2 <;> simp only [this] <;>
       (split
-       · exact exrel_ok hd.2.2
-       · exact exrel_ok hv.2.2)
+       · exact hdd
+       · exact hvv)
 
-theorem dividedBy_respects (t : Bool) : ImplRespects t [.val .f64, .val .any] dividedBy := by
+theorem dividedBy_respects (t d : Bool) : ImplRespects t d [.val .f64, .val .any] dividedBy := by
   intro cs cs' h
   obtain ⟨a, as, a', as', rfl, rfl, h1, h2⟩ := argsRel_cons h
   obtain ⟨b, b', rfl, rfl, hb⟩ := argsRel_any1 h2
   obtain ⟨v, v', rfl, rfl, hv⟩ := argRel_val h1
   simp only [ArgValRel] at hv
   subst hv
-  rcases repEq_false_cases hb.2.2 with rfl | ⟨hr1, hr2⟩
+  rcases hb.cases with rfl | ⟨hr1, hr2⟩
   · exact exrel_refl t _
   · have e1 : ∀ a : Rat, dividedBy [.val (.flt .f64 a), .val b] = retErr (.other "invalid divisor") := by
       intro a; cases b <;> simp_all [rigidF, dividedBy]
@@ -727,8 +837,8 @@ end Num
 
 /-! ## The table of the standard filters -/
 
-theorem implRespects_of_scalar (t : Bool) {ps : List Param} (h : scalarParams ps = true) (f : FilterImpl) :
-    ImplRespects t ps f := by
+theorem implRespects_of_scalar (t d : Bool) {ps : List Param} (h : scalarParams ps = true) (f : FilterImpl) :
+    ImplRespects t d ps f := by
   intro cs cs' hcs
   rw [argsRel_scalar_eq h hcs]
   exact Num.exrel_refl t _
@@ -740,16 +850,16 @@ def scalarSigB (name : Bytes) : Bool :=
   | none => true
 
 /-- an entry of the table of filter bodies respects the equivalence under the signature of its name -/
-def goodEntry (t : Bool) (e : Bytes × FilterImpl) : Prop :=
-  ∀ sg, lookupSig e.1 = some sg → ImplRespects t sg.params e.2
+def goodEntry (t d : Bool) (e : Bytes × FilterImpl) : Prop :=
+  ∀ sg, lookupSig e.1 = some sg → ImplRespects t d sg.params e.2
 
-theorem goodEntry_of_scalar (t : Bool) {name : Bytes} (h : scalarSigB name = true) (f : FilterImpl) : goodEntry t (name, f) := by
+theorem goodEntry_of_scalar (t d : Bool) {name : Bytes} (h : scalarSigB name = true) (f : FilterImpl) : goodEntry t d (name, f) := by
   intro sg hs
   simp only [scalarSigB, hs] at h
-  exact implRespects_of_scalar t h f
+  exact implRespects_of_scalar t d h f
 
-theorem goodEntry_of_sig (t : Bool) {name : Bytes} {f : FilterImpl} (sg0 : FilterSig) (hs0 : lookupSig name = some sg0)
-    (h : ImplRespects t sg0.params f) : goodEntry t (name, f) := by
+theorem goodEntry_of_sig (t d : Bool) {name : Bytes} {f : FilterImpl} (sg0 : FilterSig) (hs0 : lookupSig name = some sg0)
+    (h : ImplRespects t d sg0.params f) : goodEntry t d (name, f) := by
   intro sg hs
   simp only at hs
   rw [hs0] at hs
@@ -772,43 +882,43 @@ theorem strGlue_scalar : StrGlue.names.all (fun n => scalarSigB n.toUTF8.toList)
 
 /-- every entry of the table is good, except the excluded names; the five open entries are good
     when they are not excluded and shown good -/
-theorem goodEntry_table (t : Bool) (excl : List Bytes)
-    (hs : ArrF.bn "sort" ∉ excl → goodEntry t (ArrF.bn "sort", ArrF.eager ArrF.sort))
-    (hnat : ArrF.bn "sort_natural" ∉ excl → goodEntry t (ArrF.bn "sort_natural", ArrF.eager ArrF.sortNatural))
-    (hjson : JsonF.bn "json" ∉ excl → goodEntry t (JsonF.bn "json", JsonF.json))
-    (hinsp : JsonF.bn "inspect" ∉ excl → goodEntry t (JsonF.bn "inspect", JsonF.inspect))
-    (htype : JsonF.bn "type" ∉ excl → goodEntry t (JsonF.bn "type", JsonF.typeF)) :
-    ∀ e ∈ stdFilterImpls, e.1 ∉ excl → goodEntry t e := by
+theorem goodEntry_table (t d : Bool) (excl : List Bytes)
+    (hs : ArrF.bn "sort" ∉ excl → goodEntry t d (ArrF.bn "sort", ArrF.eager ArrF.sort))
+    (hnat : ArrF.bn "sort_natural" ∉ excl → goodEntry t d (ArrF.bn "sort_natural", ArrF.eager ArrF.sortNatural))
+    (hjson : JsonF.bn "json" ∉ excl → goodEntry t d (JsonF.bn "json", JsonF.json))
+    (hinsp : JsonF.bn "inspect" ∉ excl → goodEntry t d (JsonF.bn "inspect", JsonF.inspect))
+    (htype : JsonF.bn "type" ∉ excl → goodEntry t d (JsonF.bn "type", JsonF.typeF)) :
+    ∀ e ∈ stdFilterImpls, e.1 ∉ excl → goodEntry t d e := by
   intro e he hn
   simp only [stdFilterImpls, List.mem_append] at he
   rcases he with (((he | he) | he) | he) | he
   · simp only [Num.impls, List.mem_cons, List.not_mem_nil, or_false] at he
     rcases he with rfl | rfl | rfl | rfl | rfl | rfl | rfl | rfl | rfl | rfl | rfl
-    · exact goodEntry_of_scalar t (by decide +kernel) _
-    · exact goodEntry_of_scalar t (by decide +kernel) _
-    · exact goodEntry_of_scalar t (by decide +kernel) _
-    · exact goodEntry_of_scalar t (by decide +kernel) _
-    · exact goodEntry_of_scalar t (by decide +kernel) _
-    · exact goodEntry_of_scalar t (by decide +kernel) _
-    · exact goodEntry_of_scalar t (by decide +kernel) _
-    · exact goodEntry_of_sig t ⟨Num.bn "divided_by", [.val .f64, .val .any], true⟩ (by decide +kernel) (Num.dividedBy_respects t)
-    · exact goodEntry_of_scalar t (by decide +kernel) _
-    · exact goodEntry_of_sig t ⟨Num.bn "default", [.val .any, .val .any], false⟩ (by decide +kernel) (Num.default_respects t)
-    · exact goodEntry_of_sig t ⟨Num.bn "size", [.val .any], false⟩ (by decide +kernel) (Num.size_respects t)
+    · exact goodEntry_of_scalar t d (by decide +kernel) _
+    · exact goodEntry_of_scalar t d (by decide +kernel) _
+    · exact goodEntry_of_scalar t d (by decide +kernel) _
+    · exact goodEntry_of_scalar t d (by decide +kernel) _
+    · exact goodEntry_of_scalar t d (by decide +kernel) _
+    · exact goodEntry_of_scalar t d (by decide +kernel) _
+    · exact goodEntry_of_scalar t d (by decide +kernel) _
+    · exact goodEntry_of_sig t d ⟨Num.bn "divided_by", [.val .f64, .val .any], true⟩ (by decide +kernel) (Num.dividedBy_respects t d)
+    · exact goodEntry_of_scalar t d (by decide +kernel) _
+    · exact goodEntry_of_sig t d ⟨Num.bn "default", [.val .any, .val .any], false⟩ (by decide +kernel) (Num.default_respects t d)
+    · exact goodEntry_of_sig t d ⟨Num.bn "size", [.val .any], false⟩ (by decide +kernel) (Num.size_respects t d)
   · simp only [StrGlue.impls, List.mem_map] at he
     obtain ⟨n, hn', rfl⟩ := he
-    exact goodEntry_of_scalar t (List.all_eq_true.mp strGlue_scalar n hn') _
+    exact goodEntry_of_scalar t d (List.all_eq_true.mp strGlue_scalar n hn') _
   · simp only [ArrF.impls, List.mem_cons, List.not_mem_nil, or_false] at he
     rcases he with rfl | rfl | rfl | rfl | rfl | rfl | rfl | rfl | rfl | rfl
-    · exact goodEntry_of_sig t ⟨ArrF.bn "compact", [.val .anys], false⟩ (by decide +kernel) (ArrF.compact_respects t)
-    · exact goodEntry_of_sig t ⟨ArrF.bn "concat", [.val .anys, .val .anys], false⟩ (by decide +kernel) (ArrF.concat_respects t)
-    · exact goodEntry_of_sig t ⟨ArrF.bn "join", [.val .anys, .fn .str], false⟩ (by decide +kernel) (ArrF.join_respects t)
-    · exact goodEntry_of_sig t ⟨ArrF.bn "map", [.val .anys, .val .str], false⟩ (by decide +kernel) (ArrF.map_respects t)
-    · exact goodEntry_of_sig t ⟨ArrF.bn "reverse", [.val .anys], false⟩ (by decide +kernel) (ArrF.reverse_respects t)
+    · exact goodEntry_of_sig t d ⟨ArrF.bn "compact", [.val .anys], false⟩ (by decide +kernel) (ArrF.compact_respects t d)
+    · exact goodEntry_of_sig t d ⟨ArrF.bn "concat", [.val .anys, .val .anys], false⟩ (by decide +kernel) (ArrF.concat_respects t d)
+    · exact goodEntry_of_sig t d ⟨ArrF.bn "join", [.val .anys, .fn .str], false⟩ (by decide +kernel) (ArrF.join_respects t d)
+    · exact goodEntry_of_sig t d ⟨ArrF.bn "map", [.val .anys, .val .str], false⟩ (by decide +kernel) (ArrF.map_respects t d)
+    · exact goodEntry_of_sig t d ⟨ArrF.bn "reverse", [.val .anys], false⟩ (by decide +kernel) (ArrF.reverse_respects t d)
     · exact hs hn
-    · exact goodEntry_of_sig t ⟨ArrF.bn "first", [.val .anys], false⟩ (by decide +kernel) (ArrF.first_respects t)
-    · exact goodEntry_of_sig t ⟨ArrF.bn "last", [.val .anys], false⟩ (by decide +kernel) (ArrF.last_respects t)
-    · exact goodEntry_of_sig t ⟨ArrF.bn "uniq", [.val .anys], false⟩ (by decide +kernel) (ArrF.uniq_respects t)
+    · exact goodEntry_of_sig t d ⟨ArrF.bn "first", [.val .anys], false⟩ (by decide +kernel) (ArrF.first_respects t d)
+    · exact goodEntry_of_sig t d ⟨ArrF.bn "last", [.val .anys], false⟩ (by decide +kernel) (ArrF.last_respects t d)
+    · exact goodEntry_of_sig t d ⟨ArrF.bn "uniq", [.val .anys], false⟩ (by decide +kernel) (ArrF.uniq_respects t d)
     · exact hnat hn
   · simp only [JsonF.impls, List.mem_cons, List.not_mem_nil, or_false] at he
     rcases he with rfl | rfl | rfl
@@ -818,10 +928,10 @@ theorem goodEntry_table (t : Bool) (excl : List Bytes)
   · -- `date`: a time receiver and a string default function, both scalar parameters
     simp only [DateF.impls, List.mem_cons, List.not_mem_nil, or_false] at he
     subst he
-    exact goodEntry_of_scalar t (by decide +kernel) _
+    exact goodEntry_of_scalar t d (by decide +kernel) _
 
-theorem goodEntry_std (t : Bool) : ∀ e ∈ stdFilterImpls, e.1 ∉ openFilters → goodEntry t e :=
-  goodEntry_table t openFilters (fun h => absurd (by simp [openFilters]) h)
+theorem goodEntry_std (t d : Bool) : ∀ e ∈ stdFilterImpls, e.1 ∉ openFilters → goodEntry t d e :=
+  goodEntry_table t d openFilters (fun h => absurd (by simp [openFilters]) h)
     (fun h => absurd (by simp [openFilters]) h) (fun h => absurd (by simp [openFilters]) h)
     (fun h => absurd (by simp [openFilters]) h) (fun h => absurd (by simp [openFilters]) h)
 
@@ -841,9 +951,10 @@ theorem lookupImpl_mem {tbl : List (Bytes × FilterImpl)} {name : Bytes} {f : Fi
     exact hm
 
 /-- every standard filter other than `sort`, `sort_natural`, `json`, `inspect`, `type` respects representation
-    equivalence (`d = false`), for every name (registered or not) -/
-theorem filterRespects_std (t : Bool) (name : Bytes) (h : name ∉ openFilters) : FilterRespects t name :=
-  filterRespects_of_impl name (fun sg f hs hf => goodEntry_std t (name, f) (lookupImpl_mem hf) h sg hs)
+    equivalence — for every `d`: also with drops nested in the receiver and the arguments (`d = true`) —, for every
+    name (registered or not) -/
+theorem filterRespects_std (t d : Bool) (name : Bytes) (h : name ∉ openFilters) : FilterRespects t d name :=
+  filterRespects_of_impl name (fun sg f hs hf => goodEntry_std t d (name, f) (lookupImpl_mem hf) h sg hs)
 
 /-! ## The standard configuration with a chosen set of filters -/
 
@@ -859,22 +970,22 @@ theorem stdPrimsOnly_all : stdPrimsOnly (fun _ => true) = stdPrims := by
 
 /-- the standard comparisons respect the equivalence, and so does every allowed filter, given
     that the allowed ones among `sort`, `sort_natural` (and `json`, `inspect`, `type`) do -/
-theorem stdPrimsOnly_respects (allowed : Bytes → Bool)
-    (hopen : ∀ n, n ∈ openFilters → allowed n = true → FilterRespects true n) :
-    PrimsRespect true false (stdPrimsOnly allowed) :=
+theorem stdPrimsOnly_respects {d : Bool} (allowed : Bytes → Bool)
+    (hopen : ∀ n, n ∈ openFilters → allowed n = true → FilterRespects true d n) :
+    PrimsRespect true d (stdPrimsOnly allowed) :=
   { equal := fun a a' b b' ha hb => RRel.of_eq (fun _ => rfl) (Cmp.opEq_prep_vrel ha hb),
     less := fun a a' b b' ha hb => RRel.of_eq (fun _ => rfl) (Cmp.opLt_prep_vrel ha hb),
     contains := fun a a' b b' ha hb => Cmp.opContains_prep_vrel ha hb,
     equalFn := fun a a' b b' ha hb => RRel.of_eq (fun _ => rfl) (Cmp.equal_prep_repEq ha.2.2 hb.2.2),
     applyFilter := fun name r r' as as' hr has => by
-      show RRel true (VRel false) (if allowed name then _ else _) (if allowed name then _ else _)
+      show RRel true (VRel d) (if allowed name then _ else _) (if allowed name then _ else _)
       cases ha : allowed name with
       | false => simp [RRel]
       | true =>
         simp only [if_true]
         by_cases hn : name ∈ openFilters
         · exact hopen name hn ha r r' as as' hr has
-        · exact filterRespects_std true name hn r r' as as' hr has }
+        · exact filterRespects_std true d name hn r r' as as' hr has }
 
 /-- the engine without `sort` and `sort_natural` (and `json`, `inspect`, `type`) -/
 def coreFilters (n : Bytes) : Bool := !openFilters.contains n
